@@ -10,7 +10,9 @@ Oracle: set-theoretic definitions.
 import itertools
 import numpy as np
 
-from ..engine.explore import Outcome
+from ..engine.explore import Outcome, Refill
+
+_refill = Refill()
 from ..engine import enum
 
 PID = 'C16'
@@ -154,7 +156,9 @@ def check_case(case):
             cv += [c] * lens[c]
         if gaps[K]:
             cv.append(-1)
-        cv = np.array(cv, dtype=int)
+        # handed to the library in a caller-owned buffer that is refilled in place from case to case
+        cv = _refill(np.array(cv, dtype=int), 'cycle_vect')
+        cv0 = cv.copy()
         d += ' cycle_vect=%s' % cv.tolist()
     else:
         cv = None
@@ -223,8 +227,16 @@ def check_case(case):
         if ok:
             expect('map_chain_to_cycle', arr(r), tuple(cyc_of_sub[s] for s in subs_of_chain[ch]))
     # projections between cycle-level vectors
-    chvals = 2.0 ** np.arange(nchain)
-    subvals = 2.0 ** np.arange(nsub)
+    def distinct_values(n_):
+        # distinct per-item values including the extremes a reduction can legitimately produce (+inf, -inf)
+        v = 2.0 ** np.arange(n_)
+        if n_ >= 1:
+            v[-1] = np.inf
+        if n_ >= 3:
+            v[0] = -np.inf
+        return v
+    chvals = distinct_values(nchain)
+    subvals = distinct_values(nsub)
 
     def nanlist(x):
         return tuple('nan' if v != v else float(v) for v in np.asarray(x, dtype=float).reshape(-1).tolist())
@@ -276,7 +288,7 @@ def check_case(case):
             if ok:
                 want = tuple(i for s in subs_of_chain[ch] for i in samples_of_cycle[cyc_of_sub[s]])
                 expect('map_chain_to_samples', arr(r), want)
-        cycvals = 2.0 ** np.arange(K)
+        cycvals = distinct_values(K)
 
         def per_sample(f):
             return tuple(f(int(cv[i])) if cv[i] >= 0 else 'nan' for i in range(n))
@@ -289,6 +301,8 @@ def check_case(case):
         ok, r = call('project_chain_to_samples', cs.project_chain_to_samples, chvals, chv, sv, cv)
         if ok:
             expect('project_chain_to_samples', nanlist(r), per_sample(lambda c: float(chvals[rchain[rsub[c]]]) if rsub[c] >= 0 else 'nan'))
+    if cv is not None and not np.array_equal(cv, cv0):
+        viols.append(('input-modified', '%s: the cycle vector was changed by the maps' % d))
     nontriv = any(sel) and not all(sel) and (cv is None or (cv < 0).any())
     return Outcome(cls=kind, transitions=trans, viols=viols, nontrivial=bool(nontriv))
 
